@@ -78,7 +78,10 @@ async fn observer(
             instance: instance_state_receiver.borrow().to_owned(),
         };
 
-        write_json(&mut stream, &observe).await?;
+        // A client that went away must not take the observer down with it
+        if let Err(e) = write_json(&mut stream, &observe).await {
+            log::warn!("could not write to observation client: {e}");
+        }
     }
 }
 
